@@ -169,7 +169,7 @@ Lemma ev5_intro t r d tl o older :
         | TryLen, _ => false
         | _, _ => true
         end = true) ->
-  match o with Loop l c _ => if c =? 0 then is_panic r else loop_shape_ok l r | _ => true end = true ->
+  match o with Loop l c cr => if c =? 0 then is_panic r else loop_shape_ok l r && loop_panic_ok cr r | _ => true end = true ->
   ev5 e t r d tl = true.
 Proof.
   intros Hs H5 H6 H12.
@@ -522,7 +522,7 @@ Proof.
       apply ev5_intro with (Loop lk cc crash) older; try assumption.
       * intros H. unfold delivers_nothing. rewrite Hnil by (unfold stopped2; rewrite H; reflexivity). reflexivity.
       * intros H. unfold delivers_nothing. rewrite Hnil by (unfold stopped2; rewrite H; now rewrite orb_true_r). reflexivity.
-      * destruct (N.eqb_spec cc 0); [contradiction|]. cbn [loop_shape_ok]. rewrite forallb_rev.
+      * destruct (N.eqb_spec cc 0); [contradiction|]. cbn [loop_shape_ok loop_panic_ok]. rewrite andb_true_r, forallb_rev.
         apply (Hsh lk cc crash eq_refl).
     + cbn [t_pc]. intros hm o' older' H. discriminate H.
     + intros Hfu BF.
@@ -678,6 +678,7 @@ Proof.
         -- rewrite Hns_e. discriminate.
         -- rewrite Hns_s. discriminate.
         -- destruct (N.eqb_spec cc 0); [contradiction|].
+           rewrite (loop_panic_user _ _ _ _ _ _ _ _ Eli), andb_true_r.
            change (forallb (shape_ok lk) (rev (rev inv ++ t_acc (c_pool c t))) = true).
            rewrite forallb_rev, forallb_app, forallb_rev, Hi2g. cbn [andb]. apply (Hsh lk cc crash eq_refl).
       * cbn [t_pc]. intros hm o' older' H. discriminate H.
@@ -762,6 +763,7 @@ Proof.
     + intros H. unfold delivers_nothing. rewrite Hnil by (unfold stopped2; rewrite H; now rewrite orb_true_r).
       cbn [is_end is_panic orb iv_total N.eqb andb]. destruct (can_end o); destruct o; try reflexivity; discriminate Hres.
     + destruct o; try reflexivity. unfold call_res in Hres. destruct (N.eqb_spec c0 0); [discriminate Hres|].
+      cbn [loop_panic_ok]. rewrite andb_true_r.
       change (forallb (shape_ok l0) (rev (t_acc (c_pool c t))) = true). rewrite forallb_rev. apply (Hsh l0 c0 crash eq_refl).
   - rewrite Hp'. intros hm o' older' H. discriminate H.
   - intros Hfu BF.
